@@ -349,9 +349,9 @@ bool dis_interval<Number>::operator==(const dis_interval<Number> &o) const {
 
 template <typename Number>
 bool dis_interval<Number>::operator<=(const dis_interval<Number> &o) const {
-  if (this->is_bottom()) {
+  if (this->is_bottom() || o.is_top()) {
     return true;
-  } else if (o.is_bottom()) {
+  } else if (o.is_bottom() || this->is_top()) {
     return false;
   } else {
 
